@@ -96,6 +96,7 @@ fn recv_res(r: Result<u64, TryRecvError>) -> Res {
 struct HNotify;
 impl Notify for HNotify {
     fn notify(&self, id: usize) {
+        let _h = crate::heap::harness();
         rt().notify_task(id);
     }
 }
